@@ -54,7 +54,8 @@ pub fn migrate(from: &Path, mut to: Options, overwrite: bool, force_migrate: &[u
 	let mut commit = CommitChangeSet::default();
 	let mut nb_commit = 0;
 	let mut last_time = std::time::Instant::now();
-	for c in 0..source_options.columns.len() as ColId {
+	// Column ids are `u8` and 256 columns are valid: the count itself does not fit a `ColId`.
+	for c in (0..source_options.columns.len()).map(|c| c as ColId) {
 		if source_options.columns[c as usize] != to.columns[c as usize] {
 			to_migrate.insert(c);
 		}
@@ -68,7 +69,7 @@ pub fn migrate(from: &Path, mut to: Options, overwrite: bool, force_migrate: &[u
 		}
 	}
 
-	for c in 0..source_options.columns.len() as ColId {
+	for c in (0..source_options.columns.len()).map(|c| c as ColId) {
 		if !to_migrate.contains(&c) {
 			if !overwrite {
 				dest.close()?;
